@@ -473,7 +473,7 @@ def gen_io_loop(rng, w=None):
     return case, {'tags': ['io_loop'], 'ops': [], 'pool': [], 'in_seg_bits': [], 'wiring': []}
 
 
-def gen_many_pages(rng, w=None):
+def gen_many_pages(rng, w=None, reserve_pages=0):
     """33..72 tiny segments, each on its own 2^14-word page, page indices chosen so that several collide in the
     native page table when it grows (p and p+64 / p+128 / p+256); one op per segment, hopping from page to page,
     each flipping a bit in yet another page - so every page is loaded before the run and touched during it"""
@@ -503,6 +503,16 @@ def gen_many_pages(rng, w=None):
         n = 8
         img.add_seg(p * PAGE + off, n, n)
         segs[p] = p * PAGE + off
+    # reserve-only segments on further pages: nothing is loaded there, so their pages come into being during the run,
+    # when a device (or an op) first touches them
+    tries = 0
+    reserved = 0
+    while reserved < reserve_pages and tries < 10 * reserve_pages:
+        tries += 1
+        p = rng.choice(pages) + rng.choice([1, 16, 64, 128, 256, rng.randrange(1, 4000)])
+        if 0 < p <= max_page and p not in segs and img.add_seg(p * PAGE + rng.choice([0, 6, PAGE - 8]), 8, 0):
+            segs[p] = None
+            reserved += 1
     order = [0] + rng.sample(pages[1:], len(pages) - 1)
     for i, p in enumerate(order):
         ip = segs[p] << ww
@@ -533,6 +543,8 @@ def gen_case(rng, profile='c01', w=None):
         return gen_io_loop(rng)
     if w is None and profile in ('c07', 'c11', 'c01') and rng.random() < 0.02:
         return gen_many_pages(rng)
+    if w is None and profile == 'c19' and rng.random() < 0.04:
+        return gen_many_pages(rng, reserve_pages=rng.choice([0, 8, 40]))
     case, meta = gen_image(rng, profile, w)
     case['input_bits'] = gen_input(rng)
     case['script'] = {}
